@@ -515,7 +515,46 @@ pub fn format_blots(source: &str, max_columns: Option<usize>) -> Result<JsValue,
     // Join all formatted statements with appropriate spacing (preserving up to 1 empty line)
     let result = join_statements_with_spacing(&formatted_statements);
 
+    #[cfg(feature = "verif-hooks")]
+    if verif_hooks::capture(&result) {
+        return Ok(JsValue::NULL);
+    }
+
     // Return the formatted string
     let serializer = serde_wasm_bindgen::Serializer::json_compatible();
     Ok(result.serialize(&serializer)?)
+}
+
+/// Verification hook (cargo feature `verif-hooks`, off by default): lets the external /verif
+/// harness run `format_blots` natively (where `JsValue` serialisation is unavailable) by
+/// capturing the formatted text right before it is handed to wasm-bindgen.
+#[cfg(feature = "verif-hooks")]
+pub mod verif_hooks {
+    use std::cell::RefCell;
+
+    thread_local! {
+        static CAPTURE: RefCell<Option<Option<String>>> = const { RefCell::new(None) };
+    }
+
+    /// Arm the capture for the next `format_blots` call on this thread.
+    pub fn arm() {
+        CAPTURE.with(|c| *c.borrow_mut() = Some(None));
+    }
+
+    /// Disarm and return the captured text, if any.
+    pub fn take() -> Option<String> {
+        CAPTURE.with(|c| c.borrow_mut().take().flatten())
+    }
+
+    pub(super) fn capture(result: &str) -> bool {
+        CAPTURE.with(|c| {
+            let mut slot = c.borrow_mut();
+            if slot.is_some() {
+                *slot = Some(Some(result.to_string()));
+                true
+            } else {
+                false
+            }
+        })
+    }
 }
